@@ -19,7 +19,7 @@
 //                                i.e. between every two clock edges, so that the edge a register is clocked on is observable;
 //                                events carry the exported port names (`E`/`e` clock pin rising/falling, `R1@rst`/`R0@rst` level of
 //                                reset pin `rst`); first line after `trace`: `meta classic=0|1 clkport=<name> edges=<R|F|B...>`
-//                                (classic = single clock pin, rising edge only, at most one reset pin: what the certificate checker's
+//                                (classic = single clock pin, rising edge only, ONE reset kind/polarity/pin for all clocked nodes: what the certificate checker's
 //                                circuit model covers).  The recorded test vectors use the half-period stimulus 0 as well.
 // design-program extensions:  clockcfg ..  |  clockdef NAME [rising|falling|both] [sync|async|none] [high|low] [rst RESETNAME]
 //                             (a clock derived from the design clock on the SAME clock pin)  |  clk NAME ... endclk (ClockScope)
@@ -255,14 +255,16 @@ int main(int argc, char **argv) {
 			}
 			// which clocking does the design use?
 			std::set<const hlim::Clock*> clkPins, rstPins; std::string edges;
+			std::set<std::tuple<int, int, const hlim::Clock*>> rstCfgs;   // (reset kind, polarity, reset pin) per clocked node
 			for (auto &n : design.getCircuit().getNodes())
 				for (auto *c : n->getClocks()) if (c) {
 					clkPins.insert(c->getClockPinSource());
 					if (c->getRegAttribs().resetType != hlim::RegisterAttributes::ResetType::NONE) rstPins.insert(c->getResetPinSource());
+					rstCfgs.insert({(int)c->getRegAttribs().resetType, (int)c->getRegAttribs().resetActive, c->getResetPinSource()});
 					char e = c->getTriggerEvent() == hlim::Clock::TriggerEvent::RISING ? 'R' : c->getTriggerEvent() == hlim::Clock::TriggerEvent::FALLING ? 'F' : 'B';
 					if (edges.find(e) == std::string::npos) edges += e;
 				}
-			bool classic = clkPins.size() <= 1 && rstPins.size() <= 1 && (edges.empty() || edges == "R");
+			bool classic = clkPins.size() <= 1 && rstPins.size() <= 1 && rstCfgs.size() <= 1 && (edges.empty() || edges == "R");
 			std::map<const hlim::Clock*, std::string> resetNames;
 			std::string clkPort = "-";
 
